@@ -87,6 +87,32 @@ def rfc_remove_dot_segments(path):
     return out
 
 
+def escape_tokens():
+    cps = [0x00, 0x01, 0x20, 0x25, 0x2e, 0x2f, 0x5c, 0x41, 0x61, 0x7f, 0x80, 0xaf, 0xc0, 0xe9, 0xff]
+    wide = [0x0100, 0x00e9, 0x2215, 0x2216, 0xff0f, 0xff3c, 0xff0e, 0xff21, 0xff41, 0xfeff, 0xff00, 0xffff, 0x0441, 0x2044]
+    out = []
+    for cp in cps:
+        out.append(bytes([cp]))
+        out.append(b"%%%02x" % cp)
+        out.append(b"%%%02X" % cp)
+        out.append(b"%%u%04x" % cp)
+        out.append(b"%%U%04X" % cp)
+        out.append(b"%%u%04X" % cp)
+    for cp in wide:
+        out.append(b"%%u%04x" % cp)
+        out.append(b"%%u%04X" % cp)
+        out.append(chr(cp).encode("utf-8"))
+    # overlong / invalid UTF-8 forms of '/', '.', '\\' and NUL; encoded UTF-8; malformed escapes
+    out += [b"\xc0\xaf", b"\xe0\x80\xaf", b"\xc0\xae", b"\xc1\x9c", b"\xc0\x80", b"%c0%af", b"%c0%ae", b"%e0%80%af", b"%ef%bc%8f", b"%c3%a9",
+            b"%", b"%2", b"%u", b"%u0", b"%u00", b"%u002", b"%zz", b"%2z", b"%u00zz", b"%uzz2f", b"%%2f", b"%25%32%66", b"%252f", b"%u0025u002f",
+            b"\xef\xbc", b"\xf0\x90\x80\x80", b"\xf4\x90\x80\x80", b"\x80", b"\xff"]
+    seen = []
+    for t in out:
+        if t not in seen:
+            seen.append(t)
+    return seen
+
+
 def has_dot_segment(p):
     return any(seg in (b".", b"..") for seg in p.split(b"/"))
 
@@ -161,6 +187,32 @@ def run(ctx, model_ok=True, proofs_broken=False):
         lines.append("fn %s %s %s" % (rng.choice(("decode_path", "pipeline", "urldecode_path", "utf8_decode")), c, hx(s)))
         if rng.random() < 0.3:
             lines.append("fn normalize %s" % hx(s))
+    # escape grammar: token sequences over the code points every decoding stage singles out (separators, dot, NUL, '%', letters,
+    # control, high/best-fit/full-width forms) written raw, as %XX and as %uXXXX in both hex cases, plus malformed escapes.
+    # The byte alphabet above has only the hex digits 0 1 a F, so escapes such as %2f, %5C, %u002f, %uff0f are generated here.
+    toks = escape_tokens()
+    tcfgs = [c for c in cfgs if c.startswith("p=") and "," not in c] + ["-", "p=IDS,inv=1", "p=IDS,inv=2", "p=IDS,sepdec=0", "p=IDS,sepdec=1,bs=1",
+             "p=IDS,bs=0", "p=IDS,udec=0", "p=IDS,nrt=1", "p=IDS,net=1", "p=IDS,u8best=1", "p=IIS_6_0,inv=2,nrt=1", "p=APACHE_2,net=1,sepdec=1",
+             "p=GENERIC,udec=1,inv=2,nrt=1,net=1,lc=1,u8best=1,sepunw=400,nru=404,uunw=400,invunw=404,neu=400,u8unw=404"]
+    for c in tcfgs:
+        for t in toks:
+            lines.append("fn decode_path %s %s" % (c, hx(b"/a" + t + b"b")))
+            lines.append("fn pipeline %s %s" % (c, hx(b"/a" + t + b"b/" + t)))
+    pairs = [(a, b) for a in toks for b in toks]
+    if quick:
+        pairs = rng.sample(pairs, 1500)
+    for a, b in pairs:
+        c = rng.choice(tcfgs)
+        lines.append("fn pipeline %s %s" % (c, hx(b"/" + a + b)))
+        lines.append("fn decode_path %s %s" % (c, hx(a + b"x" + b)))
+    for _ in range(3000 if quick else 40000):
+        s = b"".join(rng.choice(toks) if rng.random() < 0.6 else rng.choice((b"/", b"a", b".", b"..", b"/./", b"x/")) for _ in range(rng.randint(1, 8)))
+        c = rng.choice(tcfgs if rng.random() < 0.7 else cfgs)
+        lines.append("fn %s %s %s" % (rng.choice(("decode_path", "pipeline", "pipeline", "urldecode_path")), c, hx(s)))
+        if rng.random() < 0.2:
+            lines.append("fn norm_uri %s %s" % (c if c.startswith("p=") and "," not in c else "p=IDS", hx(b"http://h" + (s if s.startswith(b"/") else b"/" + s) + b"?q=" + rng.choice(toks))))
+        if rng.random() < 0.2:
+            lines.append("fn urldecode %s %s" % (rng.choice(ucfgs), hx(b"n=" + s + b"&" + rng.choice(toks) + b"=v")))
     corpus = lib.load_corpus("C12")
     scripts = corpus + [[l] for l in lines]
     if model_ok:
